@@ -6,6 +6,7 @@ use super::*;
 use crate::Location as ApiLocation;
 use crate::format::UnknownLocationFallback;
 use crate::get_unique_locations;
+use crate::parse_time_safe;
 use crate::utils::get_approx_transportation;
 use std::collections::HashSet;
 use vrp_core::construction::enablers::create_typed_actor_groups;
@@ -79,7 +80,9 @@ pub(super) fn create_transport_costs(
                 )
             };
 
-            Ok(MatrixData::new(profile, timestamp.map(|t| parse_time(&t)), durations, distances))
+            let timestamp = timestamp.map(|t| parse_time_safe(&t)).transpose()?;
+
+            Ok(MatrixData::new(profile, timestamp, durations, distances))
         })
         .collect::<Result<Vec<_>, GenericError>>()?;
 
